@@ -32,6 +32,7 @@ const RAW_FRAGS: &[&str] = &[
     "<table>", "</table>", "<br/>", "<p/>", "<div a=>", "<script a=>", "<title/>", "<textarea x='>", "<a b='c' d=\"e\" f=g h>",
     "<A HREF=X>", "</p >", "</p/>", "</p a=b>", "<p a=b a=c>", "<p =x>", "<p a==b>", "<p a=\"x>y\">", "<p\n>", "<p/ >", "<p //>",
     "<script><!--", "</di=x", "</x=", "</scripty", "<!--]</d", "</title=", "<style></sty=", "<title></ti<", "</t\0>",
+    "<esi:include src=a>", "<esi:comment text=b>", "<esi:remove>", "</esi:remove>", "</esi:include>",
     "<body>", "</body>", "</html>", "<head>", "</head>", "<html>", "-- >", "--!", "<!--!>", "<!--x--!>", "<!--x--y-->", "<!x>",
 ];
 
